@@ -122,4 +122,60 @@ theorem inv_run (evs : List Ev) (s : St) (hi : Inv s) : Inv (run .always s evs) 
   | nil => exact hi
   | cons e es ih => simp only [run, List.foldl_cons]; exact ih _ (inv_step s e hi)
 
+/-! ### snapshots that arrive while their watch is running -/
+
+/-- every snapshot of the sequence belongs to a service that is watched when it is handled -/
+def Timely (pol : Policy) : St → List Ev → Prop
+  | _, [] => True
+  | s, e :: es => (match e with
+      | .data n _ => n ∈ s.watched
+      | .list _ => True) ∧ Timely pol (step pol s e).1 es
+
+/-- the importer holds nothing for a service that is not exported; the watched set is the last list -/
+structure Inv2 (s : St) : Prop where
+  held : ∀ n h, get s.peer n = some h → n ∈ s.watched
+  lst : ∀ L, s.listVer = some L → s.watched = L.eraseDups
+
+theorem inv2_init : Inv2 {} := ⟨by simp [get], by simp⟩
+
+theorem inv2_step (pol : Policy) (s : St) (e : Ev) (hi : Inv2 s)
+    (ht : match e with | .data n _ => n ∈ s.watched | .list _ => True) : Inv2 (step pol s e).1 := by
+  cases e with
+  | list names =>
+    simp only [step]
+    constructor
+    · intro n h hp
+      simp only at hp ⊢
+      split at hp
+      · simp only [get_keep, decide_eq_true_eq] at hp
+        split at hp
+        · rename_i hn; exact List.mem_eraseDups.mpr hn
+        · cases hp
+      · rename_i hs
+        simp only [ne_eq, decide_eq_true_eq, Decidable.not_not] at hs
+        rw [← hi.lst names hs]
+        exact hi.held n h hp
+    · intro L hL
+      simp only [Option.some.injEq] at hL
+      subst hL; rfl
+  | data n0 h0 =>
+    simp only at ht
+    simp only [step]
+    split
+    · exact ⟨hi.held, hi.lst⟩
+    · constructor
+      · intro n h hp
+        simp only at hp ⊢
+        by_cases hn : n = n0
+        · subst hn; exact ht
+        · rw [get_set_other _ _ _ _ hn] at hp; exact hi.held n h hp
+      · exact hi.lst
+
+theorem inv2_run (pol : Policy) (evs : List Ev) (s : St) (hi : Inv2 s) (ht : Timely pol s evs) : Inv2 (run pol s evs) := by
+  induction evs generalizing s with
+  | nil => exact hi
+  | cons e es ih =>
+    simp only [run, List.foldl_cons]
+    exact ih _ (inv2_step pol s e hi ht.1) ht.2
+
 end CV.PeerX
